@@ -44,7 +44,7 @@ Only these lexical normalisations are applied to copied text (each counted, see 
      likewise `RECV.and_then(|PAT| EXPR)` becomes `(match RECV { Some(PAT) => EXPR, None => None })`.
      With option `result-map` the same for a Result: `(match RECV { Ok(PAT) => Ok(BODY), Err(e) => Err(e) })`, BODY may be a block
      (the closure is called exactly once, in the Ok case, so inlining it keeps its side effects where they were)
-  N12 (only with option `iter-any-all`) `RECV.iter().any(|PAT| BODY)` / `RECV.iter().all(|PAT| BODY)` with RECV a field path, PAT
+  N12 (only with option `iter-any-all`) `RECV.iter()[.copied()].any(|PAT| BODY)` / `RECV.iter()[.copied()].all(|PAT| BODY)` with RECV a field path, PAT
      `x` or `&x` and a BODY that does not leave the closure become the loop that `Iterator::any` / `Iterator::all` are
      documented to be (short-circuiting on the first hit):
         { let mut __vp_anyK = false; for __vp_eK in RECV.iter() { let x = *__vp_eK; if BODY { __vp_anyK = true; break; } } __vp_anyK }
@@ -729,7 +729,8 @@ class Normaliser:
                             break
                     i2 -= 1
                 if j is None:
-                    raise AnchorLost('ghost splice: fn-tail: no statement before the tail expression')
+                    # the body is a single tail expression: the proof block goes in front of it
+                    j = ob0 + 1
                 body = body[:j] + ' ' + t + body[j:]
             elif kind == 'bare-loop':
                 # invariant text for the k-th `loop { .. }` (inserted between the keyword and the opening brace)
@@ -927,13 +928,13 @@ def expand(template_path, repo):
                     while True:
                         sc12 = Scan(body)
                         m12 = None
-                        for mm in re.finditer(r'(\b[a-z_]\w*(?:\s*\.\s*[a-z_]\w*)*)\s*\.\s*iter\(\)\s*\.\s*(any|all)\(\s*\|', body):
+                        for mm in re.finditer(r'(\b[a-z_]\w*(?:\s*\.\s*[a-z_]\w*)*)\s*\.\s*iter\(\)(\s*\.\s*copied\(\))?\s*\.\s*(any|all)\(\s*\|', body):
                             if sc12.is_code(mm.start()):
                                 m12 = mm
                                 break
                         if not m12:
                             break
-                        po = body.index('(', m12.start(2))
+                        po = body.index('(', m12.start(3))
                         pc = sc12.match[po]
                         cm = re.match(r'\s*\|([^|]*)\|\s*(.*)$', body[po + 1:pc], re.S)
                         if not cm:
@@ -941,7 +942,13 @@ def expand(template_path, repo):
                         pat12, expr12 = cm.group(1).strip(), cm.group(2).rstrip()
                         if re.search(r'\b(return|break|continue)\b|\?', expr12):
                             raise AnchorLost(f'{rel}: fn {qn}: N12: closure body leaves the closure (return / ? / break / continue)')
-                        if re.fullmatch(r'[a-z_]\w*', pat12):
+                        if m12.group(2):
+                            # `.copied()`: the closure gets the element by value
+                            if not re.fullmatch(r'[a-z_]\w*', pat12):
+                                raise AnchorLost(f'{rel}: fn {qn}: N12: closure parameter pattern {pat12!r} is not handled')
+                            var = f'__vp_e{k12}'
+                            bind = f'let {pat12} = *{var}; '
+                        elif re.fullmatch(r'[a-z_]\w*', pat12):
                             bind = ''
                             var = pat12
                         elif re.fullmatch(r'&\s*[a-z_]\w*', pat12):
@@ -949,9 +956,9 @@ def expand(template_path, repo):
                             bind = f'let {pat12[1:].strip()} = *{var}; '
                         else:
                             raise AnchorLost(f'{rel}: fn {qn}: N12: closure parameter pattern {pat12!r} is not handled')
-                        acc = f'__vp_{m12.group(2)}{k12}'
+                        acc = f'__vp_{m12.group(3)}{k12}'
                         recv = body[m12.start(1):m12.end(1)]
-                        if m12.group(2) == 'any':
+                        if m12.group(3) == 'any':
                             rep = (f'{{ let mut {acc} = false; for {var} in {recv}.iter() {{ {bind}if {expr12} {{ {acc} = true; break; }} }} {acc} }}')
                         else:
                             rep = (f'{{ let mut {acc} = true; for {var} in {recv}.iter() {{ {bind}if !({expr12}) {{ {acc} = false; break; }} }} {acc} }}')
